@@ -164,6 +164,11 @@ class LockCheck:
                     why = f"{n.func.id}({norm(n.args[0])}) walks the tree"
             elif isinstance(n, (ast.For, ast.comprehension)) and rooted(n.iter) and not isinstance(n.iter, ast.Call):
                 why = f"iterates {norm(n.iter)}"
+            elif isinstance(n, ast.Name) and n.id == tvar and isinstance(n.ctx, ast.Load) and TREE in env.types(f, n):
+                # the tree in a boolean context: Tree.__len__ counts the nodes
+                par_ = m.parent_of(n)
+                if (isinstance(par_, ast.UnaryOp) and isinstance(par_.op, ast.Not)) or isinstance(par_, ast.BoolOp) or (isinstance(par_, (ast.If, ast.While, ast.IfExp)) and par_.test is n):
+                    why = f"truth value of `{tvar}` (Tree.__len__ reads the node count)"
             elif isinstance(n, ast.YieldFrom) and rooted(n.value) and not isinstance(n.value, ast.Call):
                 why = f"iterates {norm(n.value)}"
             if why is None:
